@@ -1,6 +1,922 @@
-//! stub (engine under construction)
+//! C13: scientific instance files (Solomon, Li&Lim, TSPLIB CVRP/EUC_2D) are read faithfully and the text
+//! solution writer / initial solution reader round-trip routes.
+
+use super::common::*;
 use crate::fw::*;
+use proptest::prelude::*;
+use rosomaxa::evolution::TelemetryMode;
+use rosomaxa::utils::Parallelism;
+use serde::{Deserialize, Serialize};
+use serde_json::json;
+use std::collections::{HashMap, HashSet};
+use std::io::{BufReader, BufWriter};
+use std::sync::Arc;
+use vrp_core::construction::features::{JobDemandDimension, VehicleCapacityDimension};
+use vrp_core::models::common::*;
+use vrp_core::models::problem::*;
+use vrp_core::models::solution::{Activity, Place as TourPlace, Registry, Route, Tour};
+use vrp_core::models::{Problem, Solution};
+use vrp_core::solver::{Solver, VrpConfigBuilder};
+use vrp_scientific::common::{CoordIndex, CoordIndexExtraProperty, read_init_solution};
+use vrp_scientific::lilim::LilimProblem;
+use vrp_scientific::solomon::{SolomonProblem, SolomonSolution};
+use vrp_scientific::tsplib::{TsplibProblem, TsplibSolution};
+
+const KIND: [&str; 3] = ["solomon", "lilim", "tsplib"];
+const ASPECT: [&str; 4] = ["model", "demand", "behaviour", "roundtrip"];
+const NAMES: [[&str; 4]; 3] = [
+    ["solomon_model", "solomon_demand", "solomon_behaviour", "solomon_roundtrip"],
+    ["lilim_model", "lilim_demand", "lilim_behaviour", "lilim_roundtrip"],
+    ["tsplib_model", "tsplib_demand", "tsplib_behaviour", "tsplib_roundtrip"],
+];
+/// TSPLIB files carry no time data: a window is "not binding" when it contains [0, NO_BIND]
+/// (any closed route over <= 26 points with |coordinate| <= 100 is shorter than 1e4).
+const NO_BIND: f64 = 1e9;
+const TIME_TOL: f64 = 1e-6;
+const DIST_TOL: f64 = 1e-9;
+
+// ---------------------------------------------------------------------------------------------
+// instance model
+// ---------------------------------------------------------------------------------------------
+
+#[derive(Clone, Debug, Serialize, Deserialize)]
+pub struct Node {
+    pub id: u32,
+    pub x: i32,
+    pub y: i32,
+    /// Solomon/TSPLIB: demand >= 0; Li&Lim: +q pickup, -q delivery
+    pub demand: i32,
+    pub ready: u32,
+    pub due: u32,
+    pub service: u32,
+    /// Li&Lim: id of the sibling task (0 otherwise)
+    pub sibling: u32,
+    /// ordering key used to build the round trip routes
+    pub key: u16,
+}
+
+#[derive(Clone, Debug, Serialize, Deserialize)]
+pub struct Style {
+    /// 0 right-aligned columns (as published), 1 single blank, 2 tab, 3 mixed runs of blanks and tabs
+    pub sep: u8,
+    pub lead: bool,
+    pub trail: bool,
+    /// last line terminated by a newline
+    pub last_nl: bool,
+    /// TSPLIB header: 0 "KEY : value", 1 "KEY: value"
+    pub colon: u8,
+    /// TSPLIB coordinate spellings (cycled): 0 `28`, 1 `28.0`, 2 `28.00000`, 3 `2.80000e+01`
+    pub nums: Vec<u8>,
+}
+
+#[derive(Clone, Debug, Serialize, Deserialize)]
+pub struct Inst {
+    pub kind: u8,
+    pub rounded: bool,
+    /// Solomon/Li&Lim fleet size (TSPLIB has none)
+    pub vehicles: u32,
+    pub capacity: u32,
+    pub depot: Node,
+    /// customers in file order
+    pub nodes: Vec<Node>,
+    pub style: Style,
+    pub gens: u8,
+    pub seed: u64,
+}
+
+impl Inst {
+    fn k(&self) -> &'static str {
+        KIND[self.kind as usize]
+    }
+    /// Li&Lim (pickup index, delivery index) in file order of the pickups.
+    fn pairs(&self) -> Vec<(usize, usize)> {
+        let pos = |id: u32| self.nodes.iter().position(|n| n.id == id).unwrap();
+        self.nodes.iter().enumerate().filter(|(_, n)| n.demand > 0).map(|(i, n)| (i, pos(n.sibling))).collect()
+    }
+    fn total_demand(&self) -> i64 {
+        self.nodes.iter().map(|n| n.demand.max(0) as i64).sum()
+    }
+}
+
+fn d2(a: (i32, i32), b: (i32, i32)) -> i64 {
+    let (dx, dy) = ((a.0 - b.0) as i64, (a.1 - b.1) as i64);
+    dx * dx + dy * dy
+}
+
+fn isqrt(v: i64) -> i64 {
+    let mut r = (v as f64).sqrt() as i64;
+    while r * r > v {
+        r -= 1;
+    }
+    while (r + 1) * (r + 1) <= v {
+        r += 1;
+    }
+    r
+}
+
+/// Oracle distance: sqrt of the exact integer squared distance; rounded = nearest integer decided in
+/// integer arithmetic (sqrt(v) >= r + 0.5 <=> v > r*r + r; a tie is impossible for integer v).
+fn dist(a: (i32, i32), b: (i32, i32), rounded: bool) -> f64 {
+    let v = d2(a, b);
+    if rounded {
+        let r = isqrt(v);
+        (if v > r * r + r { r + 1 } else { r }) as f64
+    } else {
+        (v as f64).sqrt()
+    }
+}
+
+fn ceil_dist(a: (i32, i32), b: (i32, i32)) -> u32 {
+    let (v, r) = (d2(a, b), isqrt(d2(a, b)));
+    (if r * r < v { r + 1 } else { r }) as u32
+}
+
+// ---------------------------------------------------------------------------------------------
+// generator (by construction)
+// ---------------------------------------------------------------------------------------------
+
+#[derive(Clone, Debug)]
+struct RawNode {
+    xy: (u16, u16),
+    place: u8,
+    src: u16,
+    dem: u16,
+    wmode: u8,
+    wpos: u16,
+    wwidth: u16,
+    smode: u8,
+    svc: u8,
+    key: u16,
+}
+
+fn raw_node() -> impl Strategy<Value = RawNode> {
+    (any::<(u16, u16)>(), 0u8..10, any::<u16>(), any::<u16>(), 0u8..6, any::<u16>(), any::<u16>(), 0u8..4, any::<u8>(), any::<u16>())
+        .prop_map(|(xy, place, src, dem, wmode, wpos, wwidth, smode, svc, key)| RawNode { xy, place, src, dem, wmode, wpos, wwidth, smode, svc, key })
+}
+
+fn style() -> impl Strategy<Value = Style> {
+    (0u8..4, any::<bool>(), any::<bool>(), prop::bool::weighted(0.7), 0u8..2, prop::collection::vec(0u8..6, 1..5))
+        .prop_map(|(sep, lead, trail, last_nl, colon, nums)| Style { sep, lead, trail, last_nl, colon, nums: nums.into_iter().map(|v| v.saturating_sub(2)).collect() })
+}
+
+type GlobalA = ((u16, u16), u8, u32, u8, u16, bool, u16, u8, u8, u8, u16);
+type GlobalB = (u8, u16, u8, Style, u8, u64);
+
+fn inst_strategy(kind: u8) -> BoxedStrategy<Inst> {
+    let count = if kind == 1 { 4usize..=24 } else { 3usize..=25 };
+    let a = (any::<(u16, u16)>(), 0u8..4, 1u32..=200, 0u8..3, any::<u16>(), any::<bool>(), prop_oneof![Just(60u16), Just(300u16), Just(1500u16)], 0u8..4, any::<u8>(), 0u8..5, any::<u16>());
+    let b = (0u8..5, any::<u16>(), 0u8..4, style(), 1u8..4, any::<u64>());
+    (prop::collection::vec(raw_node(), count), a, b).prop_map(move |(nodes, a, b)| build(kind, nodes, a, b)).boxed()
+}
+
+fn build(kind: u8, mut raw: Vec<RawNode>, a: GlobalA, b: GlobalB) -> Inst {
+    let ((dx, dy), gclass, capacity, tight, veh, rounded, horizon, r0mode, r0raw, due_mode, due_raw) = a;
+    let (idmode, dpos, neg, style, gens, seed) = b;
+    if kind == 1 && raw.len() % 2 == 1 {
+        raw.pop();
+    }
+    let n = raw.len();
+    // coordinates: small grids give duplicates and ties; TSPLIB may be shifted to negative values
+    let g = [3u16, 10, 100, 100][gclass as usize];
+    let off = if kind == 2 && neg == 0 { (g / 2) as i32 } else { 0 };
+    let coord = |xy: (u16, u16)| ((xy.0 % (g + 1)) as i32 - off, (xy.1 % (g + 1)) as i32 - off);
+    let depot_c = coord((dx, dy));
+    // instance-level mix: forced coordinate copies never / rarely / often; windows all wide / mixed / all narrow
+    let (dup_level, win_level) = (seed % 3, seed / 3 % 3);
+    let mut coords: Vec<(i32, i32)> = vec![];
+    for (i, r) in raw.iter().enumerate() {
+        let place = if dup_level == 0 || (dup_level == 1 && r.src % 4 != 0) { 0 } else { r.place };
+        let c = match place {
+            7 => depot_c,
+            8 | 9 if i > 0 => coords[pick_idx(r.src, i)],
+            8 | 9 => depot_c,
+            _ => coord(r.xy),
+        };
+        coords.push(c);
+    }
+    // demands: loose / medium / up to the full capacity, incl. 0 and the class maximum
+    let q = capacity as i32;
+    let dmax = match tight {
+        0 => (q / n as i32).max(1),
+        1 => (q / 3).max(1),
+        _ => q,
+    };
+    let demand = |r: &RawNode| -> i32 {
+        if r.dem % 11 == 0 {
+            0
+        } else if r.dem % 13 == 0 {
+            dmax
+        } else {
+            r.dem as i32 % (dmax + 1)
+        }
+    };
+    let service = |r: &RawNode| -> u32 {
+        match r.smode {
+            0 => 0,
+            1 => 10,
+            _ => (r.svc % 91) as u32,
+        }
+    };
+    let r0 = if r0mode == 0 { (r0raw % 40) as u32 } else { 0 };
+    let h = horizon as u32;
+    // (ready, due) given the earliest possible arrival `base`; None = as wide as the depot window
+    let window = |r: &RawNode, base: u32| -> (u32, Option<u32>) {
+        let t = base + r.wpos as u32 % h;
+        let wmode = match win_level {
+            0 => 0,
+            1 => r.wmode,
+            _ => r.wmode.max(1),
+        };
+        match wmode {
+            0 => (if r.wpos % 2 == 0 { 0 } else { r0 }, None),
+            4 => (t, Some(t)),
+            5 => (r.wpos as u32 % (r0 + 1), Some(base + r.wwidth as u32 % h)),
+            _ => (t, Some(t + r.wwidth as u32 % (h / 4 + 1))),
+        }
+    };
+    let mut win: Vec<(u32, Option<u32>)> = vec![];
+    let mut need: Vec<u32> = vec![];
+    for (i, r) in raw.iter().enumerate() {
+        let mut base = r0 + ceil_dist(depot_c, coords[i]);
+        if kind == 1 && i % 2 == 1 {
+            // delivery: reachable after its pickup (previous raw node)
+            let p = i - 1;
+            let start_p = (r0 + ceil_dist(depot_c, coords[p])).max(win[p].0);
+            base = base.max(start_p + service(&raw[p]) + ceil_dist(coords[p], coords[i]));
+        }
+        let w = if kind == 2 { (0, Some(0)) } else { window(r, base) };
+        need.push(base.max(w.0) + service(r) + ceil_dist(coords[i], depot_c));
+        win.push(w);
+    }
+    let (max_need, min_need) = (*need.iter().max().unwrap(), *need.iter().min().unwrap());
+    let depot_due = if kind == 2 {
+        0
+    } else if due_mode == 0 {
+        min_need + ((max_need - min_need) as u64 * (due_raw % 100) as u64 / 100) as u32
+    } else {
+        max_need + (due_raw % 60) as u32
+    };
+    // ids
+    let mut ids: Vec<u32> = (1..=n as u32).collect();
+    let mut depot_id = 0u32;
+    match kind {
+        0 if idmode == 3 => {
+            let mut cur = 0;
+            for (i, r) in raw.iter().enumerate() {
+                cur += 1 + (r.key % 3) as u32;
+                ids[i] = cur;
+            }
+        }
+        1 if idmode != 0 => {
+            // random permutation of 1..=n by key rank (a delivery may get a smaller id than its pickup)
+            let mut order: Vec<usize> = (0..n).collect();
+            order.sort_by_key(|&i| (raw[i].key, i));
+            for (rank, &i) in order.iter().enumerate() {
+                ids[i] = rank as u32 + 1;
+            }
+        }
+        2 => {
+            let p = if idmode <= 1 { 0 } else { pick_idx(dpos, n + 1) as u32 };
+            depot_id = p + 1;
+            for (i, id) in ids.iter_mut().enumerate() {
+                *id = if (i as u32) < p { i as u32 + 1 } else { i as u32 + 2 };
+            }
+        }
+        _ => {}
+    }
+    let mut nodes: Vec<Node> = raw
+        .iter()
+        .enumerate()
+        .map(|(i, r)| {
+            let (ready, due) = if kind == 2 { (0, 0) } else { (win[i].0, win[i].1.unwrap_or(depot_due.max(win[i].0))) };
+            let (demand, sibling) = match kind {
+                1 if i % 2 == 0 => (demand(r).max(1), ids[i + 1]),
+                1 => (-demand(&raw[i - 1]).max(1), ids[i - 1]),
+                _ => (demand(r), 0),
+            };
+            Node { id: ids[i], x: coords[i].0, y: coords[i].1, demand, ready, due, service: if kind == 2 { 0 } else { service(r) }, sibling, key: r.key }
+        })
+        .collect();
+    // file order: by id (as published); sometimes shuffled (Solomon/Li&Lim lines carry their own id)
+    if kind != 2 {
+        if idmode == 4 {
+            nodes.sort_by_key(|n| (n.key.rotate_left(5), n.id));
+        } else {
+            nodes.sort_by_key(|n| n.id);
+        }
+    }
+    let depot = Node { id: depot_id, x: depot_c.0, y: depot_c.1, demand: 0, ready: if kind == 2 { 0 } else { r0 }, due: depot_due, service: 0, sibling: 0, key: 0 };
+    Inst { kind, rounded, vehicles: 1 + veh as u32 % (n as u32 + 2), capacity, depot, nodes, style, gens, seed }
+}
+
+// ---------------------------------------------------------------------------------------------
+// printers (published layouts)
+// ---------------------------------------------------------------------------------------------
+
+fn row(cols: &[String], st: &Style, width: usize) -> String {
+    let mut s = String::new();
+    if st.lead && st.sep != 0 {
+        s.push_str(if st.sep == 2 { "\t" } else { "  " });
+    }
+    for (i, c) in cols.iter().enumerate() {
+        match st.sep {
+            0 => s.push_str(&format!(" {c:>width$}")),
+            1 if i > 0 => s.push(' '),
+            2 if i > 0 => s.push('\t'),
+            3 if i > 0 => s.push_str(["  ", "\t ", "   \t", " "][i % 4]),
+            _ => {}
+        }
+        if st.sep != 0 {
+            s.push_str(c);
+        }
+    }
+    if st.trail {
+        s.push(' ');
+    }
+    s
+}
+
+fn spell(v: i32, how: u8) -> String {
+    match how {
+        1 => format!("{v}.0"),
+        2 => format!("{v}.00000"),
+        3 if v == 0 => "0.00000e+00".to_string(),
+        3 => {
+            let e = v.unsigned_abs().to_string().len() as i32 - 1;
+            format!("{:.5}e+{e:02}", v as f64 / 10f64.powi(e))
+        }
+        _ => v.to_string(),
+    }
+}
+
+fn print_inst(c: &Inst) -> String {
+    let st = &c.style;
+    let s = |v: i64| v.to_string();
+    let mut lines: Vec<String> = vec![];
+    match c.kind {
+        0 => {
+            let cust = |n: &Node| row(&[s(n.id as i64), s(n.x as i64), s(n.y as i64), s(n.demand as i64), s(n.ready as i64), s(n.due as i64), s(n.service as i64)], st, 9);
+            lines.extend([format!("G{}", c.seed % 1000), String::new(), "VEHICLE".into(), "NUMBER     CAPACITY".into()]);
+            lines.push(row(&[s(c.vehicles as i64), s(c.capacity as i64)], st, 9));
+            lines.extend([String::new(), "CUSTOMER".into(), "CUST NO.  XCOORD.   YCOORD.    DEMAND   READY TIME  DUE DATE   SERVICE   TIME".into(), String::new()]);
+            lines.push(cust(&c.depot));
+            lines.extend(c.nodes.iter().map(cust));
+        }
+        1 => {
+            let cust = |n: &Node| {
+                let (p, d) = if n.demand > 0 { (0, n.sibling) } else { (n.sibling, 0) };
+                row(&[s(n.id as i64), s(n.x as i64), s(n.y as i64), s(n.demand as i64), s(n.ready as i64), s(n.due as i64), s(n.service as i64), s(p as i64), s(d as i64)], st, 7)
+            };
+            lines.push(row(&[s(c.vehicles as i64), s(c.capacity as i64), s(1)], st, 7));
+            lines.push(cust(&c.depot));
+            lines.extend(c.nodes.iter().map(cust));
+        }
+        _ => {
+            let kv = |k: &str, v: String| format!("{k}{}{v}{}", if st.colon == 0 { " : " } else { ": " }, if st.trail { " " } else { "" });
+            let sec = |k: &str| format!("{k}{}", if st.trail { " " } else { "" });
+            let mut all: Vec<&Node> = c.nodes.iter().chain(std::iter::once(&c.depot)).collect();
+            all.sort_by_key(|n| n.id);
+            lines.push(kv("NAME", format!("G-n{}-k{}", all.len(), c.seed % 10)));
+            lines.push(kv("COMMENT", format!("(generated, No of trucks: {}, Optimal value: {})", c.seed % 10, c.seed % 1000)));
+            lines.push(kv("TYPE", "CVRP".into()));
+            lines.push(kv("DIMENSION", s(all.len() as i64)));
+            lines.push(kv("EDGE_WEIGHT_TYPE", "EUC_2D".into()));
+            lines.push(kv("CAPACITY", s(c.capacity as i64)));
+            lines.push(sec("NODE_COORD_SECTION"));
+            let how = |i: usize| st.nums[i % st.nums.len()];
+            lines.extend(all.iter().enumerate().map(|(i, n)| row(&[s(n.id as i64), spell(n.x, how(2 * i)), spell(n.y, how(2 * i + 1))], st, 4)));
+            lines.push(sec("DEMAND_SECTION"));
+            lines.extend(all.iter().map(|n| row(&[s(n.id as i64), s(n.demand as i64)], st, 4)));
+            lines.push(sec("DEPOT_SECTION"));
+            lines.push(row(&[s(c.depot.id as i64)], st, 2));
+            lines.push(row(&[s(-1)], st, 2));
+            lines.push(sec("EOF"));
+        }
+    }
+    let mut text = lines.join("\n");
+    if st.last_nl {
+        text.push('\n');
+    }
+    text
+}
+
+// ---------------------------------------------------------------------------------------------
+// oracle: parsed problem vs. instance model
+// ---------------------------------------------------------------------------------------------
+
+type Attr = ((i32, i32), f64, f64, f64);
+
+fn node_attr(n: &Node) -> Attr {
+    ((n.x, n.y), n.ready as f64, n.due as f64, n.service as f64)
+}
+
+fn demand4(d: &Dimensions) -> Option<[i32; 4]> {
+    d.get_job_demand::<SingleDimLoad>().map(|d| [d.pickup.0.value, d.pickup.1.value, d.delivery.0.value, d.delivery.1.value])
+}
+
+fn read(c: &Inst, text: &str) -> Result<Arc<Problem>, Failure> {
+    let (k, owned, rounded) = (c.k(), text.to_string(), c.rounded);
+    let res = guard(move || match k {
+        "solomon" => owned.read_solomon(rounded),
+        "lilim" => owned.read_lilim(rounded),
+        _ => owned.read_tsplib(rounded),
+    });
+    match res {
+        Err(p) => Err(Failure::new(format!("{k}:reader-panic"), format!("reader panicked on a well-formed file: {p}"))),
+        Ok(Err(e)) => Err(Failure::new(format!("{k}:reader-rejected"), format!("reader rejected a well-formed file: {e}"))),
+        Ok(Ok(p)) => Ok(Arc::new(p)),
+    }
+}
+
+fn attrs(k: &str, s: &Single, ci: &CoordIndex, what: &str) -> Result<Attr, Failure> {
+    ensure!(s.places.len() == 1, format!("{k}:places"), "{what}: {} places instead of one", s.places.len());
+    let p = &s.places[0];
+    let xy = p.location.and_then(|l| ci.locations.get(l).copied());
+    ensure!(xy.is_some(), format!("{k}:location"), "{what}: location {:?} is not in the exported CoordIndex", p.location);
+    let tw = if p.times.len() == 1 { p.times[0].as_time_window() } else { None };
+    ensure!(tw.is_some(), format!("{k}:time-window"), "{what}: expected exactly one time window, got {:?}", p.times);
+    let tw = tw.unwrap();
+    Ok((xy.unwrap(), tw.start, tw.end, p.duration))
+}
+
+fn expect_node(c: &Inst, n: &Node, got: Attr, what: &str) -> Check {
+    let (k, want) = (c.k(), node_attr(n));
+    ensure!(got.0 == want.0, format!("{k}:location"), "{what}: coordinate {:?}, file says {:?}", got.0, want.0);
+    if c.kind == 2 {
+        ensure!(got.3 == 0., format!("{k}:service-time"), "{what}: duration {} although the file has no service times", got.3);
+        ensure!(got.1 <= 0. && got.2 >= NO_BIND, format!("{k}:time-window"), "{what}: window [{}, {}] can bind although the file has no time windows", got.1, got.2);
+    } else {
+        ensure!(got.1 == want.1 && got.2 == want.2, format!("{k}:time-window"), "{what}: window [{}, {}], file says [{}, {}]", got.1, got.2, want.1, want.2);
+        ensure!(got.3 == want.3, format!("{k}:service-time"), "{what}: duration {}, file says {}", got.3, want.3);
+    }
+    Ok(())
+}
+
+/// Matches every (sub-)job to its instance customer and checks location, window and duration.
+/// Returns (single, node index) pairs and whether the Li&Lim matching was ambiguous w.r.t. amounts.
+fn match_jobs(c: &Inst, problem: &Problem, ci: &CoordIndex, stats: &Stats, pname: &str) -> Result<(Vec<(Arc<Single>, usize)>, bool), Failure> {
+    let k = c.k();
+    let jobs = problem.jobs.all();
+    let mut seen = HashSet::new();
+    for j in jobs {
+        let id = j.dimens().get_job_id();
+        ensure!(id.is_some_and(|id| seen.insert(id.clone())), format!("{k}:job-id"), "job without id or with duplicate id {id:?}");
+    }
+    let id_of = |j: &Job| j.dimens().get_job_id().cloned().unwrap_or_default();
+    let (mut out, mut ambiguous) = (vec![], false);
+    if c.kind == 1 {
+        let pairs = c.pairs();
+        ensure!(jobs.len() == pairs.len(), format!("{k}:job-count"), "{} jobs, file has {} pickup-delivery pairs", jobs.len(), pairs.len());
+        let mut free = vec![true; pairs.len()];
+        for j in jobs {
+            let what = format!("job {}", id_of(j));
+            let perms = j.as_multi().map(|m| m.permutations()).filter(|p| !p.is_empty() && p[0].len() == 2 && j.to_multi().jobs.len() == 2);
+            ensure!(perms.is_some(), format!("{k}:job-shape"), "{what}: a pickup-delivery pair must be a multi job with two sub-jobs");
+            let perms = perms.unwrap();
+            let (ps, ds) = (perms[0][0].clone(), perms[0][1].clone());
+            ensure!(perms.iter().all(|p| p.len() == 2 && Arc::ptr_eq(&p[0], &ps) && Arc::ptr_eq(&p[1], &ds)), format!("{k}:pair-order"), "{what}: more than one visiting order allowed for a pickup-delivery pair");
+            let (a, b) = (attrs(k, &ps, ci, &what)?, attrs(k, &ds, ci, &what)?);
+            let cand = (0..pairs.len()).filter(|&i| free[i] && node_attr(&c.nodes[pairs[i].0]) == a && node_attr(&c.nodes[pairs[i].1]) == b).collect::<Vec<_>>();
+            ensure!(!cand.is_empty(), format!("{k}:pair-mismatch"), "{what}: no unmatched pair of the file has pickup {a:?} then delivery {b:?} (coordinate, ready, due, service)");
+            let amount = demand4(&ps.dimens).map(|d| d[1]);
+            let pick = cand.iter().copied().find(|&i| Some(c.nodes[pairs[i].0].demand) == amount).unwrap_or(cand[0]);
+            ambiguous |= cand.iter().any(|&i| c.nodes[pairs[i].0].demand != c.nodes[pairs[pick].0].demand);
+            free[pick] = false;
+            if ps.dimens.get_job_id().is_none() {
+                stats.class(&format!("{pname}.unspecified.subjob_without_id"));
+            }
+            out.push((ps, pairs[pick].0));
+            out.push((ds, pairs[pick].1));
+        }
+    } else {
+        ensure!(jobs.len() == c.nodes.len(), format!("{k}:job-count"), "{} jobs, file has {} customers", jobs.len(), c.nodes.len());
+        // Solomon: id == CUST NO. (the published solution files and read_init_solution rely on it);
+        // TSPLIB: CVRPLIB convention node-1 when it holds, otherwise (unspecified) match by content
+        let by_id: HashMap<String, usize> = c.nodes.iter().enumerate().map(|(i, n)| ((n.id - (c.kind == 2) as u32).to_string(), i)).collect();
+        let conv = jobs.iter().all(|j| by_id.contains_key(&id_of(j)));
+        ensure!(conv || c.kind == 2, format!("{k}:job-id"), "job ids {:?} are not the customer numbers of the file", jobs.iter().map(id_of).collect::<Vec<_>>());
+        stats.class(&format!("{pname}.{}", if conv { "ids_follow_file_numbers" } else { "unspecified.ids_other_convention" }));
+        let mut free = vec![true; c.nodes.len()];
+        for j in jobs {
+            let what = format!("job {}", id_of(j));
+            ensure!(j.as_single().is_some(), format!("{k}:job-shape"), "{what}: a customer must be a single job");
+            let s = j.to_single();
+            let a = attrs(k, s, ci, &what)?;
+            let idx = if conv {
+                Some(by_id[&id_of(j)])
+            } else {
+                let d = demand4(&s.dimens).map(|d| d[0] + d[2]);
+                let cand = (0..c.nodes.len()).filter(|&i| free[i] && (c.nodes[i].x, c.nodes[i].y) == a.0).collect::<Vec<_>>();
+                cand.iter().copied().find(|&i| Some(c.nodes[i].demand) == d).or(cand.first().copied())
+            };
+            ensure!(idx.is_some_and(|i| free[i]), format!("{k}:location"), "{what}: no unmatched customer of the file at {:?}", a.0);
+            free[idx.unwrap()] = false;
+            expect_node(c, &c.nodes[idx.unwrap()], a, &what)?;
+            out.push((s.clone(), idx.unwrap()));
+        }
+    }
+    Ok((out, ambiguous))
+}
+
+fn check_fleet(c: &Inst, problem: &Problem, ci: &CoordIndex) -> Check {
+    let (k, actors, depot) = (c.k(), &problem.fleet.actors, (c.depot.x, c.depot.y));
+    if c.kind == 2 {
+        // no fleet size in the file: unlimited, i.e. never fewer vehicles than customers
+        ensure!(actors.len() >= c.nodes.len(), format!("{k}:fleet-too-small"), "{} vehicles for {} customers although the file does not limit the fleet", actors.len(), c.nodes.len());
+    } else {
+        ensure!(actors.len() == c.vehicles as usize, format!("{k}:fleet-size"), "{} vehicles, file says {}", actors.len(), c.vehicles);
+    }
+    for (i, a) in actors.iter().enumerate() {
+        let cap = a.vehicle.dimens.get_vehicle_capacity::<SingleDimLoad>().map(|l| l.value);
+        ensure!(cap == Some(c.capacity as i32), format!("{k}:capacity"), "vehicle {i}: capacity {cap:?}, file says {}", c.capacity);
+        let loc = |p: &Option<VehiclePlace>| p.as_ref().and_then(|p| ci.locations.get(p.location).copied());
+        ensure!(loc(&a.detail.start) == Some(depot) && loc(&a.detail.end) == Some(depot), format!("{k}:depot-location"), "vehicle {i}: start {:?} / end {:?}, depot of the file is at {depot:?}", loc(&a.detail.start), loc(&a.detail.end));
+        let earliest = a.detail.start.as_ref().and_then(|p| p.time.earliest).unwrap_or(0.);
+        let latest = a.detail.end.as_ref().and_then(|p| p.time.latest).unwrap_or(f64::MAX);
+        let (s, e) = (a.detail.time.start, a.detail.time.end);
+        if c.kind == 2 {
+            ensure!(s <= 0. && earliest <= 0. && e >= NO_BIND && latest >= NO_BIND, format!("{k}:depot-window"), "vehicle {i}: shift [{s}, {e}] can bind although the file has no time data");
+        } else {
+            let (r, d) = (c.depot.ready as f64, c.depot.due as f64);
+            ensure!(s == r && e == d && earliest == r && latest == d, format!("{k}:depot-window"), "vehicle {i}: shift [{s}, {e}] (start.earliest {earliest}, end.latest {latest}), depot window of the file is [{r}, {d}]");
+        }
+    }
+    Ok(())
+}
+
+fn check_transport(c: &Inst, problem: &Problem, ci: &CoordIndex) -> Check {
+    let (k, t, profile) = (c.k(), &problem.transport, Profile::default());
+    let actor = problem.fleet.actors[0].clone();
+    let route = Route { tour: Tour::new(&actor), actor };
+    for (i, a) in ci.locations.iter().enumerate() {
+        for (j, b) in ci.locations.iter().enumerate() {
+            let want = dist(*a, *b, c.rounded);
+            let mut got = vec![t.distance_approx(&profile, i, j), t.distance(&route, i, j, TravelTime::Departure(0.))];
+            if c.kind != 2 {
+                // Solomon / Li&Lim: travel time equals distance (unit speed)
+                got.extend([t.duration_approx(&profile, i, j), t.duration(&route, i, j, TravelTime::Departure(0.))]);
+            }
+            ensure!(got.iter().all(|g| (g - want).abs() <= DIST_TOL), format!("{k}:distance"), "{a:?} -> {b:?}: transport gives {got:?}, euclidean (rounded={}) is {want}", c.rounded);
+        }
+    }
+    Ok(())
+}
+
+fn check_demands(c: &Inst, matched: &[(Arc<Single>, usize)], stats: &Stats, pname: &str) -> Check {
+    let k = c.k();
+    for (s, idx) in matched {
+        let (n, d) = (&c.nodes[*idx], demand4(&s.dimens));
+        let what = format!("customer {} (file demand {})", n.id, n.demand);
+        if c.kind == 1 {
+            ensure!(d.is_some(), format!("{k}:demand-dropped"), "{what}: the sub-job has no demand dimension, so capacity cannot bind");
+            let (d, q) = (d.unwrap(), n.demand.abs());
+            ensure!(!(n.demand < 0 && d == [0, 0, 0, -q]), format!("{k}:delivery-demand-negative"), "{what}: dynamic delivery stored as {} - the load would grow by {q} at the delivery instead of shrinking", -q);
+            let want = if n.demand > 0 { [0, q, 0, 0] } else { [0, 0, 0, q] };
+            ensure!(d == want, format!("{k}:demand"), "{what}: demand (pickup static/dynamic, delivery static/dynamic) = {d:?}, expected {want:?}");
+        } else if let Some(d) = d {
+            // static delivery (goods loaded at the depot) or static pickup bind capacity identically
+            ensure!(d == [0, 0, n.demand, 0] || d == [n.demand, 0, 0, 0], format!("{k}:demand"), "{what}: demand (pickup static/dynamic, delivery static/dynamic) = {d:?}");
+        } else {
+            ensure!(n.demand == 0, format!("{k}:demand-dropped"), "{what}: the job has no demand dimension");
+            stats.class(&format!("{pname}.zero_demand_without_dimension"));
+        }
+    }
+    Ok(())
+}
+
+// ---------------------------------------------------------------------------------------------
+// behaviour and round trip
+// ---------------------------------------------------------------------------------------------
+
+fn solve(c: &Inst, problem: &Arc<Problem>) -> Result<Solution, Failure> {
+    let (k, env) = (c.k(), quiet_env(c.seed, Parallelism::new(1, 1), None));
+    let res = guard(|| {
+        let config = VrpConfigBuilder::new(problem.clone()).set_environment(env).set_telemetry_mode(TelemetryMode::None).prebuild()?.with_max_generations(Some(c.gens as usize)).build()?;
+        Solver::new(problem.clone(), config).solve()
+    });
+    match res {
+        Ok(Ok(s)) => Ok(s),
+        Ok(Err(e)) => Err(Failure::new(format!("{k}:solver-error"), format!("solver failed on the parsed problem: {e}"))),
+        Err(p) => Err(Failure::new(format!("{k}:solver-panic"), format!("solver panicked on the parsed problem: {p}"))),
+    }
+}
+
+/// Every route of a solution of the parsed problem must be feasible for the instance as written in the file.
+/// Time feasibility is asserted only when the file's distances obey the triangle inequality: nint-rounded
+/// matrices can violate it (1.41->1, 1.41->1, 2.83->3), and the solver's ruin step (removing a customer
+/// without re-checking the rest of the route) is then not covered by the premise of this sub-check.
+fn check_solution(c: &Inst, sol: &Solution, matched: &[(Arc<Single>, usize)], ambiguous: bool, stats: &Stats, pname: &str) -> Check {
+    let k = c.k();
+    let pts = c.nodes.iter().map(|n| (n.x, n.y)).chain([(c.depot.x, c.depot.y)]).collect::<HashSet<_>>().into_iter().collect::<Vec<_>>();
+    let d = |a: &(i32, i32), b: &(i32, i32)| dist(*a, *b, true);
+    let metric = !c.rounded || pts.iter().all(|a| pts.iter().all(|b| pts.iter().all(|m| d(a, b) <= d(a, m) + d(m, b))));
+    if c.kind != 2 {
+        stats.class(&format!("{pname}.{}", if metric { "time_checked_metric_distances" } else { "unspecified.time_not_asserted_nonmetric_rounding" }));
+    }
+    let node_of: HashMap<usize, usize> = matched.iter().map(|(s, i)| (Arc::as_ptr(s) as usize, *i)).collect();
+    let depot = (c.depot.x, c.depot.y);
+    if c.kind != 2 {
+        ensure!(sol.routes.len() <= c.vehicles as usize, format!("{k}:fleet-size-not-binding"), "{} routes with {} vehicles in the file", sol.routes.len(), c.vehicles);
+    }
+    let mut served = HashSet::new();
+    for r in sol.routes.iter() {
+        let seq = r.tour.all_activities().filter_map(|a| a.job.as_ref()).map(|s| node_of.get(&(Arc::as_ptr(s) as usize)).copied()).collect::<Option<Vec<_>>>();
+        ensure!(seq.is_some(), format!("{k}:foreign-job"), "route contains a job that is not a job of the problem");
+        let seq = seq.unwrap();
+        let ids = seq.iter().map(|&i| c.nodes[i].id).collect::<Vec<_>>();
+        ensure!(seq.iter().all(|i| served.insert(*i)), format!("{k}:served-twice"), "route {ids:?}: customer served twice");
+        let (mut load, mut peak) = (0i64, 0i64);
+        for (pos, &i) in seq.iter().enumerate() {
+            let n = &c.nodes[i];
+            load += n.demand as i64;
+            peak = peak.max(load);
+            if c.kind == 1 {
+                let sib = seq.iter().position(|&j| c.nodes[j].id == n.sibling);
+                ensure!(sib.is_some_and(|s| (n.demand > 0) == (pos < s)), format!("{k}:pair-not-binding"), "route {ids:?}: customer {} is not served together with / in order with its sibling {}", n.id, n.sibling);
+            }
+        }
+        if !(c.kind == 1 && ambiguous) {
+            ensure!(peak <= c.capacity as i64, format!("{k}:capacity-not-binding"), "route {ids:?} carries {peak} with capacity {} in the file", c.capacity);
+        }
+        if c.kind != 2 {
+            let (mut t, mut prev, mut late) = (c.depot.ready as f64, depot, false);
+            for &i in seq.iter() {
+                let n = &c.nodes[i];
+                t = (t + dist(prev, (n.x, n.y), c.rounded)).max(n.ready as f64);
+                late |= t > n.due as f64 + TIME_TOL;
+                ensure!(!metric || t <= n.due as f64 + TIME_TOL, format!("{k}:time-window-not-binding"), "route {ids:?}: earliest possible service start at customer {} is {t}, due date in the file is {}", n.id, n.due);
+                t += n.service as f64;
+                prev = (n.x, n.y);
+            }
+            t += dist(prev, depot, c.rounded);
+            late |= t > c.depot.due as f64 + TIME_TOL;
+            ensure!(!metric || t <= c.depot.due as f64 + TIME_TOL, format!("{k}:depot-due-not-binding"), "route {ids:?}: earliest return to the depot is {t}, depot due date is {}", c.depot.due);
+            if late {
+                stats.class(&format!("{pname}.unspecified.late_route_on_nonmetric_rounded_distances"));
+            }
+        }
+    }
+    Ok(())
+}
+
+fn route_ids(sol: &Solution) -> Vec<Vec<String>> {
+    let mut routes = sol.routes.iter().map(|r| r.tour.all_activities().filter_map(|a| a.job.as_ref()).map(|s| s.dimens.get_job_id().cloned().unwrap_or_default()).collect::<Vec<_>>()).collect::<Vec<_>>();
+    routes.sort();
+    routes
+}
+
+fn roundtrip(c: &Inst, problem: &Arc<Problem>, sol: &Solution) -> Check {
+    let k = c.k();
+    let written = guard(|| {
+        let mut w = BufWriter::new(Vec::<u8>::new());
+        let res = if c.kind == 0 { sol.write_solomon(&mut w) } else { sol.write_tsplib(&mut w) };
+        res.map(|_| String::from_utf8_lossy(&w.into_inner().unwrap_or_default()).to_string())
+    });
+    let text = match written {
+        Ok(Ok(t)) => t,
+        Ok(Err(e)) => return Err(Failure::new(format!("{k}:roundtrip-write-failed"), format!("writer refused a complete solution: {e}"))),
+        Err(p) => return Err(Failure::new(format!("{k}:roundtrip-write-panic"), format!("writer panicked: {p}"))),
+    };
+    let random = quiet_env(c.seed ^ 1, Parallelism::new(1, 1), None).random.clone();
+    let back = match guard(|| read_init_solution(BufReader::new(text.as_bytes()), problem.clone(), random)) {
+        Ok(Ok(s)) => s,
+        Ok(Err(e)) => return Err(Failure::new(format!("{k}:roundtrip-read-failed"), format!("read_init_solution failed: {e}\n{text}"))),
+        Err(p) => return Err(Failure::new(format!("{k}:roundtrip-read-panic"), format!("read_init_solution panicked: {p}\n{text}"))),
+    };
+    let (want, got) = (route_ids(sol), route_ids(&back));
+    ensure!(want == got, format!("{k}:roundtrip-routes"), "routes written {want:?}, routes read back {got:?}\n{text}");
+    ensure!(back.unassigned.is_empty(), format!("{k}:roundtrip-unassigned"), "{} jobs unassigned after reading back a complete solution\n{text}", back.unassigned.len());
+    let actors = back.routes.iter().map(|r| Arc::as_ptr(&r.actor) as usize).collect::<HashSet<_>>();
+    ensure!(actors.len() == back.routes.len(), format!("{k}:roundtrip-actor-reuse"), "{} routes share {} vehicles", back.routes.len(), actors.len());
+    Ok(())
+}
+
+/// Complete solution built from the case: customers ordered by key, cut into at most `fleet` routes.
+fn construct_solution(c: &Inst, problem: &Arc<Problem>, matched: &[(Arc<Single>, usize)]) -> Solution {
+    let mut order = matched.iter().collect::<Vec<_>>();
+    order.sort_by_key(|(_, i)| (c.nodes[*i].key, *i));
+    let mut groups: Vec<Vec<Arc<Single>>> = vec![];
+    for (s, i) in order {
+        if groups.is_empty() || (c.nodes[*i].key % 3 == 0 && groups.len() < problem.fleet.actors.len()) {
+            groups.push(vec![]);
+        }
+        groups.last_mut().unwrap().push(s.clone());
+    }
+    let mut registry = Registry::new(&problem.fleet, quiet_env(c.seed, Parallelism::new(1, 1), None).random.clone());
+    let routes = groups
+        .iter()
+        .zip(problem.fleet.actors.iter())
+        .map(|(group, actor)| {
+            let mut tour = Tour::new(actor);
+            for s in group {
+                let p = &s.places[0];
+                tour.insert_last(Activity {
+                    place: TourPlace { idx: 0, location: p.location.unwrap(), duration: p.duration, time: p.times[0].as_time_window().unwrap() },
+                    schedule: Schedule::new(0., 0.),
+                    job: Some(s.clone()),
+                    commute: None,
+                });
+            }
+            registry.use_actor(actor);
+            Route { actor: actor.clone(), tour }
+        })
+        .collect();
+    Solution { cost: (c.seed % 1_000_000) as f64 / 7., registry, routes, unassigned: vec![], telemetry: None }
+}
+
+// ---------------------------------------------------------------------------------------------
+// property
+// ---------------------------------------------------------------------------------------------
+
+pub struct SciProp {
+    pub kind: u8,
+    pub aspect: u8,
+}
+
+impl SciProp {
+    fn classify(&self, c: &Inst, text: &str, stats: &Stats) {
+        let pname = Prop::name(self);
+        let depot = (c.depot.x, c.depot.y);
+        let coords = c.nodes.iter().map(|n| (n.x, n.y)).collect::<Vec<_>>();
+        let dup = coords.iter().collect::<HashSet<_>>().len() < coords.len();
+        let at_depot = coords.contains(&depot);
+        let binds = c.total_demand() > c.capacity as i64;
+        let narrow = c.kind != 2 && c.nodes.iter().any(|n| n.due < c.depot.due || n.ready > c.depot.ready);
+        let decimal = c.kind == 2 && c.style.nums.iter().any(|v| *v > 0);
+        let mut cls = vec![("capacity_binds", binds), ("duplicate_coordinate", dup), ("customer_at_depot", at_depot), (if c.rounded { "rounded" } else { "unrounded" }, true)];
+        cls.push((["sep_aligned", "sep_blank", "sep_tab", "sep_mixed"][c.style.sep as usize], true));
+        cls.push(("no_final_newline", !c.style.last_nl));
+        cls.push(("file_order_not_by_id", c.nodes.windows(2).any(|w| w[0].id > w[1].id)));
+        if c.kind != 2 {
+            cls.extend([("narrow_window", narrow), ("point_window", c.nodes.iter().any(|n| n.ready == n.due)), ("zero_service", c.nodes.iter().any(|n| n.service == 0))]);
+            cls.extend([("depot_ready_nonzero", c.depot.ready > 0), ("customer_due_after_depot_due", c.nodes.iter().any(|n| n.due > c.depot.due)), ("fleet_smaller_than_customers", (c.vehicles as usize) < c.nodes.len())]);
+        }
+        if c.kind != 1 {
+            cls.extend([("zero_demand", c.nodes.iter().any(|n| n.demand == 0)), ("demand_equals_capacity", c.nodes.iter().any(|n| n.demand == c.capacity as i32))]);
+        }
+        match c.kind {
+            0 => cls.push(("id_gaps", c.nodes.iter().map(|n| n.id).max() > Some(c.nodes.len() as u32))),
+            1 => cls.push(("delivery_listed_before_pickup", c.pairs().iter().any(|(p, d)| d < p))),
+            _ => cls.extend([("depot_id_not_1", c.depot.id != 1), ("decimal_spelling", decimal), ("exponent_spelling", c.style.nums.contains(&3)), ("negative_coordinate", coords.iter().any(|p| p.0 < 0 || p.1 < 0))]),
+        }
+        for (name, hit) in cls {
+            if hit {
+                stats.class(&format!("{pname}.{name}"));
+            }
+        }
+        if binds && (dup || at_depot || narrow || (c.kind == 2 && (decimal || c.depot.id != 1))) {
+            stats.nontrivial(hash_of(&(pname, text, c.rounded, c.seed)));
+        }
+    }
+
+    fn run(&self, c: &Inst, text: &str, stats: &Stats) -> Check {
+        let (k, pname) = (c.k(), Prop::name(self));
+        let problem = read(c, text)?;
+        let ci = problem.extras.get_coord_index();
+        ensure!(ci.is_some(), format!("{k}:coord-index-missing"), "extras carry no CoordIndex");
+        let ci = ci.unwrap();
+        let (matched, ambiguous) = match_jobs(c, &problem, &ci, stats, pname)?;
+        match self.aspect {
+            0 => {
+                check_fleet(c, &problem, &ci)?;
+                check_transport(c, &problem, &ci)?;
+                stats.class_max(&format!("{pname}.max_locations"), ci.locations.len() as u64);
+            }
+            1 => check_demands(c, &matched, stats, pname)?,
+            2 => {
+                let sol = solve(c, &problem)?;
+                let assigned = sol.routes.iter().map(|r| r.tour.job_activity_count()).sum::<usize>();
+                stats.class(&format!("{pname}.{}", if sol.unassigned.is_empty() { "all_assigned" } else { "some_unassigned" }));
+                if ambiguous {
+                    stats.class(&format!("{pname}.capacity_check_skipped_ambiguous_pairs"));
+                }
+                if sol.routes.len() >= 2 && c.total_demand() > c.capacity as i64 {
+                    stats.class(&format!("{pname}.several_routes_and_capacity_binds"));
+                }
+                // not asserted (heuristic solver): a customer left out although the instance allows serving everybody alone
+                let depot = (c.depot.x, c.depot.y);
+                let alone = |n: &Node| {
+                    let t = (c.depot.ready as f64 + dist(depot, (n.x, n.y), c.rounded)).max(n.ready as f64);
+                    n.demand <= c.capacity as i32 && (c.kind == 2 || (t <= n.due as f64 && t + n.service as f64 + dist((n.x, n.y), depot, c.rounded) <= c.depot.due as f64))
+                };
+                let pair_alone = |&(p, d): &(usize, usize)| {
+                    let (p, d) = (&c.nodes[p], &c.nodes[d]);
+                    let tp = (c.depot.ready as f64 + dist(depot, (p.x, p.y), c.rounded)).max(p.ready as f64);
+                    let td = (tp + p.service as f64 + dist((p.x, p.y), (d.x, d.y), c.rounded)).max(d.ready as f64);
+                    p.demand <= c.capacity as i32 && tp <= p.due as f64 && td <= d.due as f64 && td + d.service as f64 + dist((d.x, d.y), depot, c.rounded) <= c.depot.due as f64
+                };
+                let alone_ok = if c.kind == 1 { c.pairs().iter().all(pair_alone) } else { c.nodes.iter().all(alone) } && (c.kind == 2 || c.vehicles as usize >= problem.jobs.size());
+                if alone_ok && !sol.unassigned.is_empty() {
+                    stats.class(&format!("{pname}.unspecified.unassigned_although_singleton_routes_fit"));
+                }
+                stats.class_n(&format!("{pname}.assigned_activities"), assigned as u64);
+                check_solution(c, &sol, &matched, ambiguous, stats, pname)?;
+                if c.kind != 1 && sol.unassigned.is_empty() {
+                    roundtrip(c, &problem, &sol)?;
+                    stats.class(&format!("{pname}.solver_solution_round_tripped"));
+                }
+            }
+            _ => {
+                let sol = construct_solution(c, &problem, &matched);
+                stats.class(&format!("{pname}.{}", if sol.routes.len() >= 2 { "several_routes" } else { "single_route" }));
+                stats.class_max(&format!("{pname}.max_routes"), sol.routes.len() as u64);
+                roundtrip(c, &problem, &sol)?;
+            }
+        }
+        Ok(())
+    }
+}
+
+impl Prop for SciProp {
+    type Case = Inst;
+    fn name(&self) -> &'static str {
+        NAMES[self.kind as usize][self.aspect as usize]
+    }
+    fn strategy(&self, _tier: Tier) -> BoxedStrategy<Inst> {
+        inst_strategy(self.kind)
+    }
+    fn cases(&self, tier: Tier) -> u32 {
+        match self.aspect {
+            2 => tier.pick(480, 24_000),
+            _ => tier.pick(1_500, 75_000),
+        }
+    }
+    fn shards(&self, _tier: Tier) -> u32 {
+        16
+    }
+    fn max_shrink_iters(&self) -> u32 {
+        if self.aspect == 2 { 120 } else { 1500 }
+    }
+    fn check(&self, c: &Inst, stats: &Stats) -> Check {
+        let text = print_inst(c);
+        // generator measurements first: they describe the generator, not the outcome
+        self.classify(c, &text, stats);
+        stats.eval();
+        if self.aspect == 0 {
+            stats.sample(self.kind as usize + 1, || json!({"grammar": c.k(), "is_rounded": c.rounded, "customers": c.nodes.len(), "file_head": text.chars().take(260).collect::<String>()}));
+        }
+        self.run(c, &text, stats).map_err(|f| Failure::new(f.signature, format!("[{} / {}] {}\n--- file (is_rounded={}) ---\n{}", c.k(), ASPECT[self.aspect as usize], f.message, c.rounded, text)))
+    }
+}
 
 pub fn property(_tier: Tier) -> PropertyDef {
-    PropertyDef { id: "STUB", level: "exploration", rule: "stub", assumptions: vec![], props: vec![], extra: None, required_classes: vec!["stub.never"] }
+    let mut props: Vec<Box<dyn DynProp>> = vec![];
+    for aspect in 0..4u8 {
+        for kind in 0..3u8 {
+            // Li&Lim has no initial-solution reader (property statement): no round trip
+            if !(aspect == 3 && kind == 1) {
+                props.push(Box::new(SciProp { kind, aspect }));
+            }
+        }
+    }
+    PropertyDef {
+        id: "C13",
+        level: "exploration",
+        rule: "proptest instance models built by construction (Solomon / TSPLIB 3-25 customers, Li&Lim 2-12 pickup-delivery pairs; integer coordinates on grids of 4x4, 11x11 or 101x101 points incl. copies of the depot's or an earlier customer's point, TSPLIB optionally shifted negative; capacity 1-200, demands loose / third / up to full capacity incl. 0 and == capacity; windows wide, narrow, zero-width or opening before the depot, every customer individually reachable, depot due date covering all or only part of the customers; depot ready time 0 or 1-39; service 0, 10 or 0-90; fleet 1..n+2; Solomon ids sequential / with gaps / lines shuffled; Li&Lim ids permuted so deliveries may precede pickups, signed demands and sibling columns; TSPLIB depot id arbitrary, coordinates spelled 28 / 28.0 / 28.00000 / 2.80000e+01) printed in the three published layouts with aligned, blank, tab or mixed column separators, optional leading/trailing blanks and optional final newline, read with read_solomon / read_lilim / read_tsplib (is_rounded generated). Sub-checks per grammar: model = jobs <-> customers (id, coordinate via exported CoordIndex, window, duration; Li&Lim pairs as two-task multi jobs in the single order pickup, delivery), vehicles (count, capacity, start/end at the depot, shift == depot window) and transport distance/duration for all location pairs == euclidean distance (exact-integer rounding oracle, tolerance 1e-9); demand = demand dimension (static for Solomon/TSPLIB, dynamic pickup/delivery of the stated positive magnitude for Li&Lim); behaviour = a solution of the parsed problem (vrp_core solver, 1-3 generations) must be feasible for the instance as written (capacity, pairing and order, fleet size; time windows and depot due date by independent earliest-start schedule replay, tolerance 1e-6, asserted only when the instance distances obey the triangle inequality - nint rounding can break it and is then only counted), and when complete it round-trips; roundtrip = a complete solution constructed from the case (customers permuted, cut into <= fleet routes) written with write_solomon / write_tsplib and read with read_init_solution gives the same multiset of id sequences, nothing unassigned, distinct vehicles. Non-trivial: total demand > capacity and (duplicate coordinate or customer at the depot or a window narrower than the depot's; TSPLIB instead: decimal spelling or depot id != 1). Distinct by hash of (sub-check, file text, is_rounded, seed).",
+        assumptions: vec![
+            "files are well-formed: integer columns, ready <= due, fleet size >= 1, capacity >= 1, demands within 0..=capacity, unique customer numbers, Li&Lim siblings consistent; TSPLIB header keys in the published order with node ids 1..DIMENSION",
+            "TSPLIB coordinates are integral values (only their spelling varies); TSPLIB has no fleet size: any fleet >= number of customers is accepted; a window containing [0, 1e9] counts as 'no window'",
+            "job id naming is only asserted for Solomon (id == CUST NO., relied upon by the published solution files); TSPLIB ids are matched by the node-1 convention when it holds and by content otherwise; Li&Lim jobs are matched by content, sub-job ids are counted not asserted",
+            "Solomon/TSPLIB demand may be stored as static delivery or static pickup (both bind capacity identically)",
+            "behaviour sub-check relies on the solver returning only solutions feasible for the problem it was given (C01); a solver that leaves customers unassigned is counted, not asserted",
+            "time feasibility of solver routes is not asserted on rounded instances whose distance matrix violates the triangle inequality (removing a customer can then lengthen a route by a unit; observed: return to the depot 1 after the due date) - counted as unspecified.late_route_on_nonmetric_rounded_distances",
+        ],
+        props,
+        extra: None,
+        required_classes: vec![
+            "solomon_model.capacity_binds",
+            "solomon_model.duplicate_coordinate",
+            "solomon_model.customer_at_depot",
+            "solomon_model.narrow_window",
+            "solomon_model.rounded",
+            "solomon_model.unrounded",
+            "solomon_model.id_gaps",
+            "solomon_model.file_order_not_by_id",
+            "solomon_model.depot_ready_nonzero",
+            "solomon_demand.zero_demand",
+            "solomon_demand.demand_equals_capacity",
+            "solomon_behaviour.several_routes_and_capacity_binds",
+            "solomon_behaviour.solver_solution_round_tripped",
+            "solomon_behaviour.time_checked_metric_distances",
+            "solomon_roundtrip.several_routes",
+            "lilim_model.capacity_binds",
+            "lilim_model.duplicate_coordinate",
+            "lilim_model.narrow_window",
+            "lilim_model.delivery_listed_before_pickup",
+            "lilim_model.rounded",
+            "lilim_model.unrounded",
+            "tsplib_model.capacity_binds",
+            "tsplib_model.duplicate_coordinate",
+            "tsplib_model.depot_id_not_1",
+            "tsplib_model.decimal_spelling",
+            "tsplib_model.exponent_spelling",
+            "tsplib_model.negative_coordinate",
+            "tsplib_model.rounded",
+            "tsplib_model.unrounded",
+            "tsplib_demand.zero_demand",
+            "tsplib_behaviour.several_routes_and_capacity_binds",
+            "tsplib_behaviour.solver_solution_round_tripped",
+            "tsplib_roundtrip.several_routes",
+        ],
+    }
 }
